@@ -188,6 +188,9 @@ def c08_spellings(r, seed, tier, model_ok):
         a, k, b = m.groups()
         if a and R.random() < .5: a += "ㄱㄱ" * R.randrange(1, 3)
         if b and R.random() < .5: b += "ㄱㄱ" * R.randrange(1, 3)
+        # zero is the one integer spelled in BOTH parities (ㄱ, ㄱㄱ, ㄱㄱㄱ, ...): as a value, an arity, an index
+        if a and set(a) == {"ㄱ"} and R.random() < .6: a = "ㄱ" * R.randrange(1, 6)
+        if b and set(b) == {"ㄱ"} and R.random() < .6: b = "ㄱ" * R.randrange(1, 6)
         if k and not b and R.random() < .3: b = "ㄱㄱ" if False else b      # bare ㅎ / ㅇ have no literal to pad
         return a + k + b
     variants = [dict(text=" ".join(pad(w) for w in p["words"]), trace=False) for p in progs]
@@ -220,11 +223,11 @@ def c09_parse(r, seed, tier, model_ok):
        (c) fuzzed texts over consonants of all blocks, syllables, separators, newlines: tree + every node span, or the rejection span,
            must equal the extracted model's (Lex.parse_text)"""
     R = random.Random(seed * 7919 + 0xC09)
-    shapes = ["ㄴ", "ㄷㄱ", "ㅎ", "ㅎㄱ", "ㅎㄴ", "ㅎㄷ", "ㅎㄴㄱ", "ㅇ", "ㅇㄱ", "ㅇㄴ"]
+    shapes = ["ㄴ", "ㄷㄱ", "ㅎ", "ㅎㄱ", "ㅎㄱㄱ", "ㅎㄴ", "ㅎㄷ", "ㅎㄴㄱ", "ㅇ", "ㅇㄱ", "ㅇㄴ"]
     L = N(tier, 4, 5)
     texts = [" ".join(ws) for l in range(0, L + 1) for ws in itertools.product(shapes, repeat=l)]
     nexh = len(texts)
-    ALPH = "ㄱㄴㄷㅎㅇㄹㅁㅂㅅㅈ" + " \n.,a1" + "가힣꿹ᄒᆞᆫﾡￂ〮ㅿㄲㅋㄳㅀ각😀é"
+    ALPH = "ㄱㄴㄷㅎㅇㄹㅁㅂㅅㅈ" + " \n.,a1" + "가힣꿹ᄒᆞᆫﾡￂ〮ㅿㄲㅋㄳㅀ각😀é" + "\r\t\x0b\x0c\x1c\x1e\x85\u2028\u2029\u00a0\u3000"      # every character some host routine treats as a line break or a space
     for _ in range(N(tier, 15000, 300000)): texts.append("".join(R.choice(ALPH) for _ in range(R.randrange(0, 18))))
     impl = pmap(_parse_one, texts, chunksize=500)
     bad = [dict(program=t, impl=a, model="a tree or a language-level syntax exception (code 5,-44)", which=["total"]) for t, a in zip(texts, impl) if a.startswith("HOST") or " CODES " in a]
@@ -237,7 +240,7 @@ def c09_parse(r, seed, tier, model_ok):
         if k < .55: return ("A", forest(d - 1), R.randrange(-3, 4))
         if k < .7: return ("D", forest(d - 1))
         return ("C", forest(d - 1), [forest(d - 1) for _ in range(R.choice([0, 1, 1, 2, 2, 3, 5, 12]) if d > 1 else R.randrange(0, 3))])
-    def spelled(n): return G.enc(n) + "ㄱㄱ" * (R.randrange(0, 3) if R.random() < .3 else 0)
+    def spelled(n): return ("ㄱ" * R.randrange(1, 6)) if n == 0 and R.random() < .5 else G.enc(n) + "ㄱㄱ" * (R.randrange(0, 3) if R.random() < .3 else 0)
     def unparse(t):
         if t[0] == "L": return [spelled(t[1])]
         if t[0] == "R": return [spelled(t[1]), "ㅇ"]
